@@ -112,11 +112,20 @@ def _run(spec, cfg, pm, path, x, garbage_rows=False):
         allv = c.objectives if ev.n_con == 0 else np.hstack([c.objectives, c.constraints])
         return fres, gres, allv[:R], allv[R:].reshape(R, P, F)
     (fres,) = ee.calculate(x, compute_functions=True, compute_gradients=False)
+    if fres.functions is None:
+        raise _SplitStops(fres, ev)
     (gres,) = ee.calculate(x, compute_functions=False, compute_gradients=True)
     c0, c1 = ev.calls[0], ev.calls[1]
     fv = c0.objectives if ev.n_con == 0 else np.hstack([c0.objectives, c0.constraints])
     pv = c1.objectives if ev.n_con == 0 else np.hstack([c1.objectives, c1.constraints])
     return fres, gres, fv, pv.reshape(R, P, F)
+
+
+class _SplitStops(Exception):
+    """Split path: the function evaluation reported no functions; an optimizer stops there."""
+
+    def __init__(self, fres, ev):
+        self.fres, self.ev = fres, ev
 
 
 class _GarbageWrap:
@@ -183,6 +192,15 @@ def _judge_subset(obs, spec, pm, x, tag):
         except OptimizationAborted:
             obs.count("aborted_by_filter_or_estimator")
             continue
+        except _SplitStops as stop:
+            # judge the function result alone
+            c0 = stop.ev.calls[0]
+            fv = c0.objectives if stop.ev.n_con == 0 else np.hstack([c0.objectives, c0.constraints])
+            n_obj0 = len(spec["oweights"])
+            obs.count("flags_checked")
+            expected_functions(obs, spec, cfg, stop.fres, fv[:, :n_obj0], (fv[:, n_obj0:] if spec["n_con"] else None))
+            obs.count("split_stopped_after_functions")
+            continue
         except ValueError:
             if spec.get("merge"):
                 obs.count("trivial.merged_empty_system")
@@ -210,7 +228,7 @@ def _judge_subset(obs, spec, pm, x, tag):
                 rs = _reduced(spec, keep)
                 try:
                     f2, g2, _, _ = _run(rs, ens.make_config(rs), pm, "combined", x)
-                except (OptimizationAborted, ValueError):
+                except (OptimizationAborted, ValueError, _SplitStops):
                     f2 = g2 = None
                 if f2 is not None and f2.functions is not None and g2.gradients is not None and fres.functions is not None:
                     obs.count("differential_compared")
@@ -230,7 +248,7 @@ def _judge_subset(obs, spec, pm, x, tag):
             obs.count("garbage_compared")
             if not (_same_results(results["combined"][0], f3) and _same_results(results["combined"][1], g3)):
                 obs.violation("failed_row_values_influence_result", tag=tag)
-        except (OptimizationAborted, ValueError):
+        except (OptimizationAborted, ValueError, _SplitStops):
             pass
     # split and combined agree on the function result
     if len(results) == 2 and not _same_results(results["combined"][0], results["split"][0]):
